@@ -231,6 +231,8 @@ Definition read_rune (b : N) (t : list N) : N * nat :=
     else (b, 1%nat)
   else utf8_decode (b :: t).
 
+Definition prepend (out : list N) (p : list N * list N) : list N * list N := (out ++ fst p, snd p).
+
 (* the loop of the single-quoted branch of scanString, after the opening quote.
    Result: the bytes appended to `raw` (ending with the closing quote) and the
    remaining input.  esc = the previous rune was a backslash; skip = bytes of
@@ -244,7 +246,7 @@ Fixpoint scan1 (quote : N) (skip : nat) (esc : bool) (s : list N) : res (list N 
     | O =>
       let '(c, w) := read_rune b t in
       let out := utf8_encode c in                    (* raw.WriteRune(c) *)
-      let k := rmap (fun p : list N * list N => (out ++ fst p, snd p)) in
+      let k := rmap (prepend out) in
       if esc then k (scan1 quote (w - 1) false t)
       else if c =? quote then Ok (out, t)
       else if c =? c_nl then Err                     (* unexpected newline in string *)
@@ -263,7 +265,7 @@ Fixpoint scan3 (quote : N) (skip : nat) (esc : bool) (count : N) (s : list N) : 
     | O =>
       let '(c, w) := read_rune b t in
       let out := utf8_encode c in
-      let k := rmap (fun p : list N * list N => (out ++ fst p, snd p)) in
+      let k := rmap (prepend out) in
       if esc then k (scan3 quote (w - 1) false count t)
       else if c =? quote then
         if count =? 2 then Ok (out, t) else k (scan3 quote (w - 1) false (count + 1) t)
